@@ -697,7 +697,7 @@ def twin_specs(tier, seed):
     c5 = [s for s in c05.gen_specs("quick", seed) if s[0] == "redeclare" or (s[0] == "array" and s[5] == "idx" and s[3] == "none")]
     specs += [("c05", s) for s in c5[::(6 if tier == "quick" else 1)]]
     specs += [("c06", s) for s in c06.gen_specs("quick", seed) if s[3] in ("index", "args") and not s[4] and s[5] == "none"][::(4 if tier == "quick" else 1)]
-    specs += [("c08", s) for s in c08.gen_specs("quick", seed)[::(6 if tier == "quick" else 1)]]
+    specs += [("c08", s) for s in [x for x in c08.gen_specs("quick", seed) if len(x) == 2 and isinstance(x[1], int)][::(6 if tier == "quick" else 1)]]
     specs += [("c15", s) for s in list(c15.SCRIPTS)[::(4 if tier == "quick" else 1)]]
     if tier == "quick":      # two of the four twin modes per script, rotating
         return [(s, m) for s in specs if s[0] == "extra" for m in TWIN_MODES] + [(s, TWIN_MODES[(i + j) % 4]) for i, s in enumerate(specs) if s[0] != "extra" for j in (0, 1)]
